@@ -992,7 +992,7 @@ def judge_strings(cues):
         lines = [G.py_lines(text_break(n)) for n in got.v]
         oks = oracle_batch([(413, [resp[i][1], l]) for i, l in zip(chunk, lines)])
         for i, l, ok in zip(chunk, lines, oks):
-            info = {"exact": l == resp[i][1], "model_is_shown": resp[i][2] != [] and resp[i][2][0] == resp[i][1], "indomain": resp[i][3] == 1}
+            info = {"lines": l, "shown": resp[i][1], "exact": l == resp[i][1], "model_is_shown": resp[i][2] != [] and resp[i][2][0] == resp[i][1], "indomain": resp[i][3] == 1}
             v = None
             if ok != 1:
                 v = {"kind": "text-differs", "what": "DFXP (strings): reader lines %r, a consumer shows %r" % (l, resp[i][1]),
@@ -1015,9 +1015,14 @@ def run_strings_dfxp(ctx, res, n):
                 d.get("S_reader_lines_exactly_shown" if info["exact"] else "S_reader_lines_differ_in_white_space_only", 0) + 1
             if not info["indomain"]:
                 d["S_outside_line_ok"] = d.get("S_outside_line_ok", 0) + 1
+            elif not info["exact"] and len(res["disagreements"]) < 50:
+                # audit w7 item 1: the theorem's EXACT equality is tied to the real reader at alarm level
+                res["disagreements"].append({"fmt": "DFXP", "what": "real DFXPReader lines differ (in white space) from the model's lines = the "
+                                             "shown lines on an in-domain cue (C04_dfxp_str_end_to_end_partial is exact)", "input": c,
+                                             "impl": info.get("lines"), "model": info.get("shown")})
             elif not info["model_is_shown"] and len(res["disagreements"]) < 50:
                 res["disagreements"].append({"fmt": "DFXP", "what": "read_p (render_p ls) differs from the shown lines on an in-domain cue "
-                                             "(instance of C04_dfxp_str_end_to_end)", "input": c})
+                                             "(instance of C04_dfxp_str_end_to_end_partial)", "input": c})
         if v is not None:
             res["violations"].append(dict(v, fmt="DFXP", shape="dfxp-strings", replay="dfxp-str", input=c))
 
@@ -1172,7 +1177,7 @@ def run(ctx):
                     "text-node matcher keeps all words of text wrapped over several source lines",
                     "wave 7: DFXP END TO END ON STRINGS - read_p (render_p lines) = the shown lines EXACTLY for every list of lines "
                     "(strict XML parser + reader model on the rendered string; every character, LF wraps with any indentation, pieces "
-                    "that do not begin with white space; C04_dfxp_str_end_to_end, C04_dfxp_text_node_wrapped)",
+                    "that do not begin with white space; C04_dfxp_str_end_to_end_partial, C04_dfxp_text_node_wrapped)",
                     "DFXP/SAMI tree walk keeps all non-white-space characters (cannot see glued words)",
                     "the two WebVTT regular expressions are pinned: an edit breaks props/C04.v"],
         "correspondence_only": ["the statement for DFXP and SAMI, and for all five formats on the REAL readers: oracle on "
